@@ -36,6 +36,11 @@ pub struct RtCase {
     /// long as it is used more often than every idle_timeout (C04)
     #[serde(default)]
     pub h2: bool,
+    /// after the first round: wait `a` ms, send one request labelled HTTP/2, wait `b` ms, go on. Whatever
+    /// connection carries that request has been used then; a connection that was merely looked at and put
+    /// back has not: its idle age keeps counting from its last real use.
+    #[serde(default)]
+    pub probe: Option<(u8, u8)>,
 }
 
 struct OpenGuard(Arc<AtomicUsize>);
@@ -191,6 +196,23 @@ impl RtPoolEngine {
                     for t in tasks {
                         t.await.map_err(|e| format!("client task: {e}"))??;
                     }
+                    if let (Some((a, b)), true) = (c2.probe, n == delays.iter().take(3).count()) {
+                        // (first round just ended)
+                        tokio::time::sleep(Duration::from_millis(a as u64)).await;
+                        let req = http::Request::builder().method("GET").version(http::Version::HTTP_2).uri("http://rt.test/probe").body(hyperdriver::Body::empty()).unwrap();
+                        let issued = Instant::now();
+                        // (the pool keys connections by origin, not by version: on the unchanged tree this request
+                        // is carried by the idle HTTP/1 connection - a real use, which is recorded as one)
+                        if let Ok(Ok(resp)) = tokio::time::timeout(Duration::from_millis(300), svc.clone().oneshot(req)).await {
+                            let conn = resp.headers().get("x-conn").and_then(|v| v.to_str().ok()).and_then(|v| v.parse::<usize>().ok());
+                            let _ = resp.into_body().collect().await;
+                            if let Some(conn) = conn {
+                                used.lock().unwrap().push((9_999, conn, issued, Instant::now()));
+                            }
+                        }
+                        tokio::time::sleep(Duration::from_millis(b as u64)).await;
+                        continue;
+                    }
                     let ms = [0u64, 5, 70][*pause as usize % 3];
                     if ms > 0 {
                         tokio::time::sleep(Duration::from_millis(ms)).await;
@@ -301,7 +323,7 @@ pub fn strategy() -> impl proptest::strategy::Strategy<Value = RtCase> {
         0u8..3,
         proptest::collection::vec((proptest::collection::vec(prop_oneof![2 => Just(false), 1 => Just(true)], 1..=3), 0u8..3), 1..5),
     )
-        .prop_map(|(idle_timeout_ms, max_idle, client_timeout_ms, cont, builder_order, rounds)| RtCase { idle_timeout_ms, max_idle, client_timeout_ms, cont, builder_order, rounds, h2: false })
+        .prop_map(|(idle_timeout_ms, max_idle, client_timeout_ms, cont, builder_order, rounds)| RtCase { idle_timeout_ms, max_idle, client_timeout_ms, cont, builder_order, rounds, h2: false, probe: None })
 }
 
 /// HTTP/2 rounds under an idle timeout of 250 ms (or none): gaps of at most ~145 ms between uses, up to
@@ -315,5 +337,17 @@ pub fn h2_strategy() -> impl proptest::strategy::Strategy<Value = RtCase> {
         0u8..3,
         proptest::collection::vec((proptest::collection::vec(prop_oneof![1 => Just(false), 1 => Just(true)], 1..=3), prop_oneof![1 => Just(1u8), 3 => Just(2u8)]), 3..6),
     )
-        .prop_map(|(idle_timeout_ms, max_idle, cont, builder_order, rounds)| RtCase { idle_timeout_ms, max_idle, client_timeout_ms: None, cont, builder_order, rounds, h2: true })
+        .prop_map(|(idle_timeout_ms, max_idle, cont, builder_order, rounds)| RtCase { idle_timeout_ms, max_idle, client_timeout_ms: None, cont, builder_order, rounds, h2: true, probe: None })
+}
+
+/// One HTTP/1 request, then - still within the idle timeout of 60 ms - a request labelled HTTP/2, then,
+/// beyond the timeout of the first request's end, further HTTP/1 requests: they may travel on the first
+/// connection only if the HTTP/2-labelled request really did (C05).
+pub fn probe_strategy() -> impl proptest::strategy::Strategy<Value = RtCase> {
+    use proptest::prelude::*;
+    (prop_oneof![Just(1u8), Just(2u8), Just(8u8)], any::<bool>(), 0u8..3, 48u8..53, 48u8..53, proptest::collection::vec((proptest::collection::vec(Just(false), 1..=2), 0u8..2), 1..3)).prop_map(|(max_idle, cont, builder_order, a, b, mut rest)| {
+        let mut rounds = vec![(vec![false], 0u8)];
+        rounds.append(&mut rest);
+        RtCase { idle_timeout_ms: Some(60), max_idle, client_timeout_ms: None, cont, builder_order, rounds, h2: false, probe: Some((a, b)) }
+    })
 }
